@@ -126,4 +126,17 @@ CHECKS = {
         legs=[dict(name=k, run="^Test%s$" % n, quick=q, thorough=q * 10, shards=2) for (k, n, q) in [
             ("mem", "Mem", 250), ("kvplain", "KVPlain", 150), ("mount", "Mount", 150), ("submem", "SubMem", 100), ("cache", "Cache", 150), ("tar", "Tar", 100), ("osfs", "OSFS", 100)]],
     ),
+    "C17": dict(
+        pkg="c17", level="exploration",
+        rule=("closed legs (7 subjects: mem, keyvalue/plain, mount, Sub, cache, tar, os.FS): a handle kind (read-only, write-only, read-write, directory) is opened, 0..3 methods are used, the handle is closed and then ALL of "
+              "Read, ReadAt, Write, WriteAt, Seek, Stat, ReadDir, Truncate, Chmod, Sync, Close are called in a generated order: each must return a non-nil error without panicking, and must match ErrClosed wherever the same call on a "
+              "closed *os.File twin does (methods the handle never had answer through the helper's ErrNotImplemented). siblings leg: two handles on one file; generated read/write/seek/close/reopen on the first; after every step the second "
+              "keeps the offset of its os twin and stays valid. resurrect leg: a write handle is opened, the file is removed / renamed / RemoveAll'ed, then write/writeat/truncate/chmod/sync/close go through the old handle: Stat(old) must stay "
+              "not-exist and the root must not list it. non-trivial: every closed/resurrect case; sibling cases with a close"),
+        assumptions=[OS_ASSUMPTION],
+        legs=[dict(name="closed-" + k, run="^TestClosed$/^%s$" % k, quick=60, thorough=600, shards=1) for k in ["mem", "kvplain", "mount", "submem", "cache", "tar", "osfs"]] + [
+            dict(name="siblings", run="^TestSiblings$", quick=300, thorough=3000, shards=2),
+            dict(name="resurrect", run="^TestResurrect$", quick=200, thorough=2000, shards=2),
+        ],
+    ),
 }
